@@ -206,8 +206,8 @@ func c05Exec(c *Ctx, cs c05Case) (outcome string) {
 		rootBefore = rootJSON(suppliedRoot(ec, cs.Root))
 		c05Pristine[cs.Root] = rootBefore
 	}
-	r := doCall(ec, call{Fn: cs.Fn, Elem: cs.Ref, Root: cs.Root, Opts: expOpts{Cont: cs.Cont}}, nil, 0)
 	expGuard.warm()
+	r := doCall(ec, call{Fn: cs.Fn, Elem: cs.Ref, Root: cs.Root, Opts: expOpts{Cont: cs.Cont}}, nil, 0)
 	if ch := expGuard.changed(); ch != "" && !expGuard.reported {
 		expGuard.reported = true
 		viol("package-state-changed", "", "", "a resolution left package-level state behind: "+ch)
